@@ -81,7 +81,9 @@ class Verifier:
     def run_checks(self, category: str, fcp: FcpV2) -> Result[Nil, FcpError]:
         """Run check for a category."""
         for check in self.checks.get(category) or []:
-            for node in fcp.get(category).attempt():
+            # uncategorized checks are not tied to a node type, they see the whole schema once
+            nodes = [fcp] if category == "uncategorized" else fcp.get(category).attempt()
+            for node in nodes:
                 check(fcp, fcp, node).attempt()
 
         return Ok(())
